@@ -4,19 +4,34 @@
   Model: `OFV.Model.parse depth b` (openflow13.Parse with its deferred recover()).  Outcomes: `.ok` message, `.err`,
   `.panic`, `.spin` (a decoder loop that never ends).  `Res.Total r` = `r` is `.ok _` or `.err`.
 
-  FINDING — the property as stated ("given any byte string whatsoever … never wedges a parser goroutine") is FALSE:
-    `C07_flowstats_frame_spins` (proved here; reproduced on the Go library with the harness:
-    `parse <65535-byte frame + 67 spare bytes> 65535 => spin`, with 66 spare bytes `=> err`).
-    A multipart FlowStats reply of the LEGAL maximum size, 65535 bytes, whose buffer has at least 67 bytes of spare
-    capacity makes Parse loop for ever (and allocate without bound): an apply-actions instruction whose two actions —
-    an NX note of 65232 bytes and an NX learn action whose last spec reads its 256 value bytes `data[2:258]` through
-    the capacity — have sizes adding up to 65528; InstrActions.Len() = 8 + 65528 wraps to 0 in uint16, and
-    `n += int(instr.Len())` in FlowStats.UnmarshalBinary — the one instruction loop without a zero-length guard —
-    stops advancing.  The message stream hands Parse the contents of pooled, growing bytes.Buffers, whose capacity
-    exceeds their length, so the frame is deliverable by a switch.  This is why the theorem below bounds the CAPACITY.
-    (An earlier finding of this work, Hello frames longer than 65535 bytes looping in the element loop, disappeared
-    with library fix b558ac9 "hello elements are decoded within their declared length"; Hello is now proved total for
-    every input, `Hello_unmarshal_no_spin`.)
+  RESULT: `C07_parse_total : ∀ depth b, b.WF → Res.Total (parse depth b)` — for every nesting depth and every
+  well-formed slice (len ≤ cap), whatever its contents, length fields, nesting, length or capacity, Parse returns a
+  message or an error: no panic, no endless loop.  Every loop of the model carries a fuel proportional to the input
+  length and the proof shows the fuel is never exhausted, so the iterations of each loop are bounded by the length of
+  its input.
+
+  HISTORY — the property was false when this work started; two defects were found by the failed proof attempts:
+    1. Hello frames longer than 65535 bytes: a version-bitmap element with 16383 bitmaps had Len() = 4 + 4·16383 = 0
+       (uint16) and the element loop stopped advancing.  Proved in Lean as a counterexample (`parse … = .spin`),
+       reproduced on the Go library; gone with library fix b558ac9 (hello elements are decoded within their declared
+       length).
+    2. A multipart FlowStats reply of the LEGAL maximum size, 65535 bytes, in a buffer with ≥ 67 bytes of spare
+       capacity (the stream's pooled bytes.Buffers have spare capacity, so a switch could deliver it): an apply-actions
+       instruction holding an NX note of 65232 bytes and an NX learn action whose spec reads `data[2:258]` through the
+       capacity had InstrActions.Len() = 8 + 65232 + 296 = 0 (uint16), and `n += int(instr.Len())` in
+       FlowStats.UnmarshalBinary, the one instruction loop without a zero-length guard, stopped advancing.  Proved in
+       Lean as a counterexample (`C07_flowstats_frame_spins`, removed), reproduced on the Go library
+       (`parse <frame + 67 spare bytes> 65535 => spin`); fixed by library commit 48a6ffe (the loop refuses an
+       instruction of size 0); the witness is kept as corpus/OF/F83_flowstats_spin.txt.
+  With both fixed, no bound on length or capacity is needed any more (`FlowStats_decodeInstrs_no_spin` now rests on
+  the stability of `Len()` for decoded instructions instead of a capacity bound).
+
+  REMAINING FINDING, outside the reach of Parse (last section): the exported decoder BundleAdd.UnmarshalBinary, called
+  directly, loops for ever on a 65545-byte input (`BundleAdd_unmarshal_spins`, reproduced on the Go library:
+  `dec BundleAdd <hex> 65545 => spin`): BundlePropertyExperimenter.Len() = (12 + 65517 + 7) / 8 * 8 wraps to 0.  Parse
+  never hands BundleAdd more than 65519 bytes (`data[16:Header.Length]`), which is exactly the hypothesis
+  `d.len ≤ 65528` of `BundleAdd_unmarshalWith_no_spin`; that hypothesis is therefore necessary for the decoder and
+  always satisfied inside Parse.
 
   What is proved (no assumption on length fields, types or nesting):
     * `C07_parse_no_panic`       Parse never panics, unconditionally (recover()).
@@ -25,13 +40,11 @@
                                  lists, nested conntrack actions, learn specs, instructions (FlowMod, FlowStats),
                                  SwitchFeatures ports, TLV table maps, bundle properties, multipart records,
                                  nested Parse (BundleAdd).
-    * `C07_parse_total_partial`  for every nesting depth and every well-formed slice of a buffer of at most 65535
-                                 bytes, Parse returns a message or an error — ASSUMING only
-                                   hEth : the Ethernet decoder (payload of PacketIn) never spins on a well-formed slice.
-    * `C07_parse_total`          the same with hEth discharged by `C08_Ethernet_total` (OFV.Props.C08): no hypothesis
-                                 other than `b.WF` and `b.cap ≤ 65535`.
-    * `C07_parse_not_total`      the unrestricted statement `∀ depth b, b.WF → Res.Total (parse depth b)` is false.
-  The bound on the capacity is sharp up to 67 bytes: total at capacity ≤ 65535, a spinning frame at capacity 65602.
+    * `C07_parse_total_partial`  Parse is total on every well-formed slice ASSUMING only
+                                   hEth : the Ethernet decoder (payload of PacketIn) never spins on a well-formed slice
+                                 (this statement does not depend on C08).
+    * `C07_parse_total`          the same with hEth discharged by `C08_Ethernet_total` (OFV.Props.C08): the only
+                                 hypothesis is `b.WF`.
 -/
 import OFV.Model.All
 import OFV.Lemmas.ParseFlowStats
@@ -91,28 +104,30 @@ theorem TLVTableMod_unmarshal_no_spin (recv : V) (d : Slice) : TLVTableMod.unmar
 theorem TLVTableReply_unmarshal_no_spin (recv : V) (d : Slice) : TLVTableReply.unmarshal recv d ≠ .spin :=
   (TLVTableReply_unmarshal_ns recv d).1
 
-/-- BundleAdd: the property loop advances by at least 8 bytes per property when the data is at most 65528 bytes long
-    (it always is: the payload of an experimenter message is `data[16:Header.Length]`), given that the nested Parse
-    does not spin. -/
+/-- BundleAdd: the property loop advances by at least 16 bytes per property when the data is at most 65528 bytes long,
+    given that the nested Parse does not spin.  Inside Parse the data is `data[16:Header.Length]` of an experimenter
+    message, at most 65519 bytes.  The bound protects against the uint16 wrap-around of
+    BundlePropertyExperimenter.Len() = (12 + len(data) + 7) / 8 * 8 for a property Length ≥ 65529, and is necessary:
+    see `BundleAdd_unmarshal_spins`. -/
 theorem BundleAdd_unmarshalWith_no_spin (parseF : Slice → R V) (childLen : MsgLenF)
-    (hparse : ∀ d : Slice, d.WF → d.buf.length ≤ 65535 → parseF d ≠ .spin)
-    (recv : V) (d : Slice) (hlen : d.len ≤ 65528) (hcap : d.buf.length ≤ 65535) :
+    (hparse : ∀ d : Slice, d.WF → parseF d ≠ .spin)
+    (recv : V) (d : Slice) (hlen : d.len ≤ 65528) :
     BundleAdd.unmarshalWith parseF childLen recv d ≠ .spin :=
-  (BundleAdd_unmarshalWith_ns parseF childLen (fun x h1 h2 => NS.of_ne (hparse x h1 h2)) recv d hlen hcap).1
+  (BundleAdd_unmarshalWith_ns parseF childLen (fun x h1 => NS.of_ne (hparse x h1)) recv d hlen).1
 
-/-- The instruction loop of a FlowStats record — the only loop of the parser that advances by an unchecked `Len()` —
-    terminates when the record lies in a buffer of at most 65519 bytes (= 65535 − the 16 bytes of the multipart
-    header) and the instructions start at offset 48 or later: every decoded action then has a stable `Len()` of at
-    most capacity + 48, the cursor of an InstrActions stays below 65536, and `InstrActions.Len()` cannot wrap to 0. -/
-theorem FlowStats_decodeInstrs_no_spin (d : Slice) (limit n0 : Nat) (is0 : List V) (hwf : d.WF)
-    (hcap : d.buf.length ≤ 65519) (hn0 : 48 ≤ n0) : FlowStats.decodeInstrs d limit n0 is0 ≠ .spin :=
-  (decodeInstrs_ns d limit n0 is0 hwf hcap hn0).1
+/-- The instruction loop of a FlowStats record terminates on every well-formed slice: it refuses an instruction of
+    size 0 and advances by a second `Len()` call, which returns the same non-zero size because `Len()` of every
+    decoded instruction is stable (for InstrActions: of every decoded action, at every nesting depth of conntrack
+    actions).  No bound on length or capacity. -/
+theorem FlowStats_decodeInstrs_no_spin (d : Slice) (limit n0 : Nat) (is0 : List V) (hwf : d.WF) :
+    FlowStats.decodeInstrs d limit n0 is0 ≠ .spin :=
+  (decodeInstrs_ns d limit n0 is0 hwf).1
 
 /-- MultipartReply (decoded into `new(MultipartReply)` as Parse does): the record loop refuses a record of size 0 and
     runs below the 16-bit header length. -/
-theorem MultipartReply_unmarshal_no_spin (d : Slice) (hwf : d.WF) (hcap : d.buf.length ≤ 65535) :
+theorem MultipartReply_unmarshal_no_spin (d : Slice) (hwf : d.WF) :
     MultipartReply.unmarshalWith anyLenM MultipartReply.zero d ≠ .spin :=
-  (MultipartReply_unmarshalWith_ns flowStatsInstrLoopOK d hwf hcap).1
+  (MultipartReply_unmarshalWith_ns flowStatsInstrLoopOK d hwf).1
 
 /-- PacketIn, given that the Ethernet decoder does not spin. -/
 theorem PacketIn_unmarshal_no_spin (hEth : ∀ recv (d : Slice), d.WF → PEthernet.unmarshal recv d ≠ .spin)
@@ -121,18 +136,16 @@ theorem PacketIn_unmarshal_no_spin (hEth : ∀ recv (d : Slice), d.WF → PEther
 
 /-! ### Parse -/
 
-/-- Parse does not loop for ever on a well-formed frame in a buffer of at most 65535 bytes. -/
+/-- Parse does not loop for ever on a well-formed slice. -/
 theorem C07_parse_no_spin (hEth : ∀ recv (d : Slice), d.WF → PEthernet.unmarshal recv d ≠ .spin)
-    (depth : Nat) (b : Slice) (hwf : b.WF) (hcap : b.cap ≤ 65535) : parse depth b ≠ .spin :=
-  (parse_ns' (fun r d h => NS.of_ne (hEth r d h)) depth b ⟨hwf, hcap⟩).1
+    (depth : Nat) (b : Slice) (hwf : b.WF) : parse depth b ≠ .spin :=
+  (parse_ns' (fun r d h => NS.of_ne (hEth r d h)) depth b hwf).1
 
-/-- Total-ness of Parse: a message or an error for every well-formed slice of a buffer of at most 65535 bytes and every
-    nesting depth, given only that the Ethernet decoder terminates (hEth).  This statement does not depend on C08.
-    Full statement aimed at — false, see `C07_parse_not_total`: `∀ depth b, b.WF → Res.Total (parse depth b)`.
-    Remaining hypotheses: hEth (discharged in `C07_parse_total`), and the capacity bound (necessary: see the finding). -/
+/-- Total-ness of Parse: a message or an error for every well-formed slice and every nesting depth, given only that the
+    Ethernet decoder terminates (hEth).  This statement does not depend on C08; hEth is discharged in `C07_parse_total`. -/
 theorem C07_parse_total_partial (hEth : ∀ recv (d : Slice), d.WF → PEthernet.unmarshal recv d ≠ .spin)
-    (depth : Nat) (b : Slice) (hwf : b.WF) (hcap : b.cap ≤ 65535) : Res.Total (parse depth b) := by
-  have hns := C07_parse_no_spin hEth depth b hwf hcap
+    (depth : Nat) (b : Slice) (hwf : b.WF) : Res.Total (parse depth b) := by
+  have hns := C07_parse_no_spin hEth depth b hwf
   have hnp := C07_parse_no_panic depth b
   cases h : parse depth b with
   | ok v => exact Or.inl ⟨v, rfl⟩
@@ -146,41 +159,23 @@ theorem Ethernet_unmarshal_no_spin (recv : V) (d : Slice) (hwf : d.WF) : PEthern
   · rw [hv]; simp
   · rw [he]; simp
 
-/-- TOTAL-NESS OF PARSE.  For every nesting depth and every well-formed slice (len ≤ cap) of a buffer of at most 65535
-    bytes — whatever its contents, its length fields, its nesting — `Parse` returns a message or an error: no panic, no
-    endless loop.  (Every loop of the model carries a fuel proportional to the input length and the proof shows the
-    fuel is never exhausted; so the number of iterations of each loop is bounded by the length of its input.) -/
-theorem C07_parse_total (depth : Nat) (b : Slice) (hwf : b.WF) (hcap : b.cap ≤ 65535) : Res.Total (parse depth b) :=
-  C07_parse_total_partial Ethernet_unmarshal_no_spin depth b hwf hcap
+/-- TOTAL-NESS OF PARSE.  For every nesting depth and every well-formed slice (len ≤ cap) — whatever its contents, its
+    length fields, its nesting, its length, its capacity — `Parse` returns a message or an error: no panic, no endless
+    loop. -/
+theorem C07_parse_total (depth : Nat) (b : Slice) (hwf : b.WF) : Res.Total (parse depth b) :=
+  C07_parse_total_partial Ethernet_unmarshal_no_spin depth b hwf
 
-/-- the hypotheses on the frame are satisfiable: an 8-byte echo request in an exact buffer -/
-example : (Slice.exact [4, 2, 0, 8, 0, 0, 0, 1]).WF ∧ (Slice.exact [4, 2, 0, 8, 0, 0, 0, 1]).cap ≤ 65535 :=
-  ⟨Slice.exact_wf _, by decide⟩
+/-- the hypothesis is satisfiable: any byte string in an exact buffer, e.g. an 8-byte echo request -/
+example : (Slice.exact [4, 2, 0, 8, 0, 0, 0, 1]).WF := Slice.exact_wf _
 
-/-! ### the property is false without the bound on the capacity -/
+/-! ### outside the reach of Parse: the BundleAdd decoder called directly is not total -/
 
-/-- COUNTEREXAMPLE (genuine defect).  Parse loops for ever on the 65535-byte multipart FlowStats reply `frame2 nb tail`
-    (see OFV.Lemmas.ParseSpin for the layout; `nb` = the 65222 bytes of the note, arbitrary; `tail` = what follows the
-    learn action: 189 more bytes of the frame and at least 67 bytes of spare capacity, arbitrary). -/
-theorem C07_flowstats_frame_spins (nb tail : Bytes) (hnb : nb.length = 65222) (ht : 256 ≤ tail.length) (depth : Nat) :
-    parse depth ⟨frame2 nb tail, 65535⟩ = .spin :=
-  FlowStats_spin nb tail hnb ht depth
-
-/-- the spinning frame is a well-formed slice: 65535 bytes of a buffer of 65346 + |tail| ≥ 65602 bytes -/
-theorem C07_flowstats_frame_wf (nb tail : Bytes) (hnb : nb.length = 65222) (ht : 256 ≤ tail.length) :
-    (⟨frame2 nb tail, 65535⟩ : Slice).WF := by
-  unfold Slice.WF
-  simp [frame2, P80, NOTE10, LEARN34, hnb]
-  omega
-
-/-- … for instance with an all-zero note and tail: `∀ depth b, b.WF → Res.Total (parse depth b)` is false. -/
-theorem C07_parse_not_total : ¬ ∀ (depth : Nat) (b : Slice), b.WF → Res.Total (parse depth b) := by
-  intro h
-  have hn : (List.replicate 65222 (0 : UInt8)).length = 65222 := List.length_replicate
-  have ht : 256 ≤ (List.replicate 256 (0 : UInt8)).length := by rw [List.length_replicate]; exact Nat.le_refl _
-  have hs := C07_flowstats_frame_spins _ _ hn ht 0
-  rcases h 0 _ (C07_flowstats_frame_wf _ _ hn ht) with ⟨v, hv⟩ | he
-  · rw [hs] at hv; cases hv
-  · rw [hs] at he; cases he
+/-- FINDING (genuine defect of an exported decoder, not of Parse).  `new(BundleAdd).UnmarshalBinary` loops for ever on
+    the 65545-byte input `bundleFrame pd` = bundle id, pad, flags, an 8-byte echo request, then one property
+    `ff ff ff f9 00000001 00000002` + 65517 payload bytes `pd` (arbitrary): the property's `Len()` wraps to 0.
+    So the bound in `BundleAdd_unmarshalWith_no_spin` cannot be dropped. -/
+theorem BundleAdd_unmarshal_spins (pd : Bytes) (hpd : pd.length = 65517) :
+    BundleAdd.unmarshal BundleAdd.zero ⟨bundleFrame pd, 65545⟩ = .spin :=
+  bundleAdd_spin pd hpd
 
 end OFV.Props.C07
